@@ -40,53 +40,48 @@ Section Codec.
       rewrite skipn_app, Nat.sub_diag, skipn_all, skipn_O. cbn [app]. apply dec_enc.
   Qed.
 
-  (* the body of a response after the wrapper: untouched, or coded exactly once with the chosen coding *)
+  Lemma writer_do_id {A} full (x : A) : writer_do full x = x.
+  Proof. now destruct full. Qed.
+
+  Lemma stream_consumed_concat sched : forall chunks i, stream_consumed sched i chunks = concat chunks.
+  Proof.
+    induction chunks as [|c r IH]; intros i; [reflexivity|]. cbn [stream_consumed concat].
+    now rewrite !writer_do_id, IH.
+  Qed.
+
+  (* the body of a response after the wrapper: untouched, or coded exactly once (completely) with the chosen coding *)
   Lemma compress_body_shape k lvl inflight cap sched r :
     let c := compress_body enc k lvl inflight cap sched r in
     (c = unchanged r) \/
     (r_ce r = [] /\ c_ce c = tok k /\ c_vary c = add_vary (r_vary r) strAcceptEncoding /\
-     (c_body c = SErr \/ exists complete, c_body c = SOk (WCoded k (enc k lvl (r_body r)) complete))).
+     c_body c = SOk (WCoded k (enc k lvl (r_body r)) true)).
   Proof.
     unfold compress_body. destruct (r_ce r) eqn:Ece; [|now left].
     destruct (compressible (r_ct r)); cbn [negb]; [|now left].
     destruct (r_streamed r).
     - right. cbn [c_ce c_vary c_body]. repeat split. unfold stream_compress.
-      destruct (stream_ops_ok sched 0 (r_chunks r)); [right; eexists; reflexivity|now left].
+      now rewrite stream_consumed_concat, writer_do_id.
     - destruct (Z.of_nat (length (r_body r)) <? minCompressLen)%Z; [now left|].
-      right. cbn [c_ce c_vary c_body]. repeat split. right. exists true.
+      right. cbn [c_ce c_vary c_body]. repeat split.
       unfold append_bytes_level, stackless_write, nonblocking_write. now destruct (queue_accepts inflight cap).
   Qed.
 
-  (* buffered bodies: for every queue occupancy the response decodes to the handler's body *)
-  Lemma buffered_roundtrip kd bl ol ae inflight cap sched r :
-    r_streamed r = false ->
+  (* every body, buffered or streamed: for every queue occupancy and every refusal schedule the response decodes
+     (per the coding it declares) to the handler's body *)
+  Lemma roundtrip_any_load kd bl ol ae inflight cap sched r :
     exists w, c_body (snd (compress_handler enc kd bl ol ae inflight cap sched r)) = SOk w /\ decode dec w = Some (r_body r).
   Proof.
-    intros Hs. unfold compress_handler. destruct (choose kd ae) as [k|]; cbn [snd].
-    - unfold compress_body. rewrite Hs. destruct (r_ce r); [|eexists; split; reflexivity].
-      destruct (compressible (r_ct r)); cbn [negb]; [|eexists; split; reflexivity].
-      destruct (Z.of_nat (length (r_body r)) <? minCompressLen)%Z; [eexists; split; reflexivity|].
-      eexists. split; [reflexivity|]. cbn [c_body decode].
-      destruct (append_roundtrip k [] (r_body r) (level_for kd k bl ol) inflight cap) as [_ H]. cbn in H. now rewrite H.
+    unfold compress_handler. destruct (choose kd ae) as [k|]; cbn [snd]; [|eexists; split; reflexivity].
+    destruct (compress_body_shape k (level_for kd k bl ol) inflight cap sched r) as [-> | (_ & _ & _ & H)].
     - eexists; split; reflexivity.
+    - eexists. split; [exact H|]. cbn [decode]. now rewrite dec_enc.
   Qed.
 
-  (* streamed bodies: either the failure is reported, or the stream decodes to the handler's body — provided the
-     coder's Close is not refused *)
-  Lemma stream_roundtrip_guarded kd bl ol ae inflight cap sched r :
-    nth_full sched (2 * length (r_chunks r)) = false ->
-    let c := snd (compress_handler enc kd bl ol ae inflight cap sched r) in
-    c_body c = SErr \/ exists w, c_body c = SOk w /\ decode dec w = Some (r_body r).
+  (* Write<Coding>Level to a generic io.Writer: the output decodes to the input whatever the queue does *)
+  Lemma write_generic_roundtrip k lvl p fw fc :
+    exists w, write_generic enc k lvl p fw fc = SOk w /\ decode dec w = Some p.
   Proof.
-    intros Hc. unfold compress_handler. destruct (choose kd ae) as [k|]; cbn [snd]; [|right; eexists; split; reflexivity].
-    unfold compress_body. destruct (r_ce r); [|right; eexists; split; reflexivity].
-    destruct (compressible (r_ct r)); cbn [negb]; [|right; eexists; split; reflexivity].
-    destruct (r_streamed r).
-    - cbn [c_body]. unfold stream_compress. destruct (stream_ops_ok sched 0 (r_chunks r)); [|now left].
-      right. eexists. split; [reflexivity|]. rewrite Hc. cbn [negb decode]. now rewrite dec_enc.
-    - destruct (Z.of_nat (length (r_body r)) <? minCompressLen)%Z; [right; eexists; split; reflexivity|].
-      right. eexists. split; [reflexivity|]. cbn [c_body decode].
-      destruct (append_roundtrip k [] (r_body r) (level_for kd k bl ol) inflight cap) as [_ H]. cbn in H. now rewrite H.
+    unfold write_generic. rewrite !writer_do_id. eexists. split; [reflexivity|]. cbn [decode]. now rewrite dec_enc.
   Qed.
 
   (* never twice: a response that already declares a Content-Encoding is left alone *)
@@ -102,25 +97,13 @@ Section Codec.
     let c := snd (compress_handler enc kd bl ol ae inflight cap sched r) in
     c = unchanged r \/
     exists k lvl, choose kd ae = Some k /\ r_ce r = [] /\ c_ce c = tok k /\
-      (c_body c = SErr \/ exists complete, c_body c = SOk (WCoded k (enc k lvl (r_body r)) complete)).
+      c_body c = SOk (WCoded k (enc k lvl (r_body r)) true).
   Proof.
     unfold compress_handler. destruct (choose kd ae) as [k|] eqn:E; cbn [snd]; [|now left].
     destruct (compress_body_shape k (level_for kd k bl ol) inflight cap sched r) as [H | (H1 & H2 & _ & H3)]; [now left|].
     right. exists k, (level_for kd k bl ol). auto.
   Qed.
 End Codec.
-
-(* the witness of the stackless-writer-close-dropped finding: a one-chunk stream whose Close is refused *)
-Lemma stream_roundtrip_refuted :
-  forall (enc : coding -> Z -> bytes -> bytes) (dec : coding -> bytes -> bytes),
-  exists sched r,
-    r_streamed r = true /\
-    exists w, c_body (snd (compress_handler enc HLevel 6 6 [s2b "gzip"] 0 2048 sched r)) = SOk w /\ decode dec w = None.
-Proof.
-  intros enc dec.
-  exists [false; false; true], {| r_ce := []; r_ct := []; r_vary := []; r_streamed := true; r_chunks := [s2b "abc"] |}.
-  split; [reflexivity|]. eexists. split; reflexivity.
-Qed.
 
 (* ------------------------------------------------------------------ *)
 (* comma lists *)
@@ -133,53 +116,6 @@ Proof.
   - reflexivity.
   - rewrite IH. destruct (c =? COMMA); [reflexivity|].
     destruct (split_comma r) as [|e es] eqn:E; [exfalso; now apply (split_comma_nonempty r)|]. reflexivity.
-Qed.
-
-(* ------------------------------------------------------------------ *)
-(* Vary *)
-Definition vary_guard (lines : list bytes) : Prop :=
-  match lines with
-  | [] => True
-  | v :: _ => v = [] \/ contains v strAcceptEncoding = false \/ vary_has [v] sAcceptEncoding = true
-  end.
-
-Lemma vary_has_value_self : forall rest, vary_has (strAcceptEncoding :: rest) sAcceptEncoding = true.
-Proof. intros rest. reflexivity. Qed.
-
-Lemma vary_has_cons v rest m : vary_has (v :: rest) m = vary_has [v] m || vary_has rest m.
-Proof. unfold vary_has. cbn [existsb]. now rewrite orb_false_r. Qed.
-
-Lemma add_vary_has lines : vary_guard lines -> vary_has (add_vary lines strAcceptEncoding) sAcceptEncoding = true.
-Proof.
-  destruct lines as [|v rest]; [reflexivity|]. cbn [vary_guard add_vary]. intros H.
-  destruct v as [|c v']; [apply vary_has_value_self|].
-  destruct H as [H|[H|H]]; [discriminate| |].
-  - rewrite H. rewrite vary_has_cons. apply orb_true_iff. left.
-    unfold vary_has. cbn [existsb]. rewrite orb_false_r. rewrite split_comma_app_comma, existsb_app.
-    apply orb_true_iff. right. reflexivity.
-  - destruct (contains (c :: v') strAcceptEncoding).
-    + rewrite vary_has_cons, H. reflexivity.
-    + rewrite vary_has_cons. apply orb_true_iff. left.
-      unfold vary_has. cbn [existsb]. rewrite orb_false_r. rewrite split_comma_app_comma, existsb_app.
-      apply orb_true_iff. right. reflexivity.
-Qed.
-
-Lemma vary_set_guarded enc kd bl ol ae inflight cap sched r :
-  vary_guard (r_vary r) ->
-  let c := snd (compress_handler enc kd bl ol ae inflight cap sched r) in
-  c = unchanged r \/ vary_has (c_vary c) sAcceptEncoding = true.
-Proof.
-  intros Hg. unfold compress_handler. destruct (choose kd ae) as [k|]; cbn [snd]; [|now left].
-  destruct (compress_body_shape enc k (level_for kd k bl ol) inflight cap sched r) as [H | (_ & _ & H & _)]; [now left|].
-  right. rewrite H. now apply add_vary_has.
-Qed.
-
-Lemma vary_set_refuted enc :
-  exists r, let c := snd (compress_handler enc HLevel 6 6 [s2b "gzip"] 0 2048 [] r) in
-    c_ce c = s2b "gzip" /\ vary_has (c_vary c) sAcceptEncoding = false.
-Proof.
-  exists {| r_ce := []; r_ct := []; r_vary := [s2b "X-Accept-Encoding"]; r_streamed := true; r_chunks := [s2b "abc"] |}.
-  split; reflexivity.
 Qed.
 
 (* ------------------------------------------------------------------ *)
